@@ -56,9 +56,10 @@ def parse_doc(content, ctx, return_defaults=False, return_booleans=True):
             # inherit every default the section does not define itself; a
             # default given twice is inherited twice so that the later one wins
             # as it does inside the DEFAULT section
-            own = set(d.name for d in c.children)
+            # option names are case-insensitive
+            own = set(d.name.lower() for d in c.children)
             for d in defaults.grandchildren:
-                if d.name not in own:
+                if d.name.lower() not in own:
                     c.children.append(d)
 
         if not include_defaults:
